@@ -7,7 +7,8 @@ RULE = ("Flow A: on the repair machine TLC checks the action property ScanAdvanc
         "checks, indel on/off, heap limits - every position of every error, including the first nucleotide and the last window; "
         "repair_dna is run on every exported case under a scan-tick budget of n taken from the specification (exceeding it is the "
         "verdict), must return a well-formed (candidates, statistics) pair, raise nothing, and stay inside the look-up bound. "
-        "Flow B: seeded strands to 200 nt with errors at the ends, dense errors and random strings. "
+        "Flow B: seeded strands to 200 nt with errors at the ends, dense errors and random strings, and 600..900 nt strands with an error "
+        "every 10..13 nt under the default heap limit. "
         "Distinct non-trivial = distinct (graph, start, strand, check, indel, heap) that is not a clean walk.")
 
 MINE = rf.C10
@@ -18,7 +19,7 @@ def run(ctx):
     cfgs = ["MC_Repair_strings_quick.cfg"] if ctx.quick else ["MC_Repair_strings_thorough.cfg"]
     na = rf.flow_a(ctx, cfgs, MINE, "A")
     ctx.exhaustive = True
-    nb = c08.flow_b(ctx, MINE, 50 if ctx.quick else 400, 10, kinds=("anywhere", "anywhere", "clean", "edited"))
+    nb = c08.flow_b(ctx, MINE, 50 if ctx.quick else 400, 10, kinds=("anywhere", "anywhere", "clean", "edited", "long"))
     ctx.sample({"flow": "A", "note": "cases enumerated by MC_Repair; see tlc_runs", "cases": na})
     ctx.assumptions += ["the scan bound is enforced through the rep_scan tick hook (DSW_VERIF=1) with a 30 s watchdog behind it",
                         "strands over A, C, G, T only, at least one window long"]
